@@ -54,6 +54,10 @@ def sign_of(c):
 
 def run(chk):
     w = C.world_for(chk)
+    # which model table and which window size reach which scorer (shared with C09)
+    from . import c09 as _c09w
+    chk.rule("R09.1", "Predictor::new hands every scorer its own tables and window size (shared with C09)")
+    _c09w.r091_predictor(chk, w)
     from . import ctors as _ctors
     _ctors.run(chk, w, only=["PositionalWeight::new", "with_boundary"])
     for rid, txt in (("R01.1", "threshold table: >0 -> WordBoundary, else NotWordBoundary, one store per boundary, never Unknown"),
